@@ -3,7 +3,7 @@
    final deletion of the inlined functions is certified by drop_closedb (Proofs14). *)
 From Coq Require Import ZArith NArith List Bool Lia.
 From IRV Require Import Base.Exn Gen.C05Gen C05.Model C05.Inline C05.Proofs C05.Proofs2 C05.Proofs3 C05.Proofs14 C05.Proofs15
-     C05.InlineCert C05.InlinePass.
+     C05.Proofs4 C05.Proofs18 C05.InlineCert C05.InlinePass.
 Import ListNotations.
 Open Scope N_scope.
 
@@ -59,22 +59,27 @@ Section InlineAll.
 
   Definition GoodS (m0 : model) (st : istate) : Prop := Good m0 (fst (fst (fst st))).
 
-  Lemma inline_graph_good m0 : forall fuel r st, GoodS m0 st -> GoodS m0 (inline_graph_c fuel r st).
+  Lemma ig_loop_good m0 rec f r : (forall r' st, GoodS m0 st -> GoodS m0 (rec r' st)) ->
+    forall steps pos st, GoodS m0 st -> GoodS m0 (ig_loop rec f r steps pos st).
   Proof.
-    induction fuel as [|f IHf]; intros r st HG; simpl; [exact HG|].
-    generalize (S f * 16)%nat as steps. intros steps. generalize 0%nat as pos. revert st HG.
-    induction steps as [|steps IHs]; intros st HG pos; [exact HG|].
-    destruct st as [[[m fv] fg] inld]. cbn [fst snd] in *.
+    intros Hrec. induction steps as [|steps IHs]; intros pos st HG; [exact HG|].
+    destruct st as [[[m fv] fg] inld]. cbn [ig_loop].
     destruct (get_gref m r) as [g|]; [|exact HG].
     destruct (nth_error (g_nodes g) pos) as [n|]; [|exact HG].
     destruct (is_call_node m n).
     - destruct (inline_at_c f m (node_key n) fv fg) as [[[m' fv'] fg']|] eqn:E.
-      + apply IHs. unfold GoodS in *. simpl in *. eapply step_good; eauto.
+      + apply IHs. unfold GoodS in *. cbn [fst snd] in *. eapply step_good; eauto.
       + apply IHs. exact HG.
     - apply IHs.
-      assert (Hfold : forall gs st0, GoodS m0 st0 -> GoodS m0 (fold_left (fun st sg => inline_graph_c f (GSub sg) st) gs st0)).
-      { induction gs as [|sg gs IHg]; intros st0 H0; simpl; [exact H0|]. apply IHg. apply IHf. exact H0. }
+      assert (Hfold : forall gs st0, GoodS m0 st0 -> GoodS m0 (fold_left (fun st sg => rec (GSub sg) st) gs st0)).
+      { induction gs as [|sg gs IHg]; intros st0 H0; cbn [fold_left]; [exact H0|]. apply IHg. apply Hrec. exact H0. }
       apply Hfold. exact HG.
+  Qed.
+
+  Lemma inline_graph_good m0 : forall fuel r st, GoodS m0 st -> GoodS m0 (inline_graph_c fuel r st).
+  Proof.
+    induction fuel as [|f IHf]; intros r st HG; [exact HG|].
+    cbn [inline_graph_c]. apply ig_loop_good; [|exact HG]. intros r' st' H'. apply IHf. exact H'.
   Qed.
 
   Lemma inline_funcs_good m0 fuel done st : GoodS m0 st -> GoodS m0 (inline_funcs_c fuel done st).
@@ -101,5 +106,41 @@ Section InlineAll.
       + apply Hc; assumption.
     - rewrite drop_funcs_noninit_inputs. exact Hi.
     - rewrite drop_funcs_outputs. exact Ho.
+  Qed.
+
+  Lemma noopfuncb_sound m : noopfuncb m = true -> NoOpFunc m.
+  Proof.
+    intros H op Hop. destruct (find_func (m_funcs m) op) as [fn|] eqn:E; [|reflexivity]. exfalso.
+    pose proof (find_func_In _ _ _ E) as Hin. unfold find_func in E. apply find_some in E. destruct E as [_ E].
+    apply opid_eqb_eq in E. pose proof (forallb_In _ _ fn H Hin) as Hx. simpl in Hx. rewrite E in Hx.
+    apply negb_true_iff in Hx. apply orb_false_iff in Hx. destruct Hx as [X1 X2]. destruct Hop; congruence.
+  Qed.
+
+  Lemma dead_rest_good m0 fuel m1 mf : Good m0 m1 -> dead_rest_okb fuel m1 mf = true -> Good m0 mf.
+  Proof.
+    intros [HW HN Hc Hi Ho] H. unfold dead_rest_okb in H.
+    destruct (drop_closedb m1 [] (live_keys fuel [] m1)) eqn:E1; [|discriminate].
+    destruct (live_agreeb m1 mf [] (live_keys fuel [] m1)) eqn:E2; [|discriminate].
+    destruct (wfb mf) eqn:E3; [|discriminate].
+    destruct (live_agree_interface m1 mf [] _ E2) as [A B].
+    constructor.
+    - apply wfb_WF. exact E3.
+    - apply noopfuncb_sound. exact H.
+    - intros env r He Hcm.
+      eapply (live_agree_computes T absent tensor_val interp interp_mono interp_identity interp_trailing_absent m1 mf [] _ HW E1 E2).
+      + eapply env_ok_mono; [|exact He]. intros v Hv. apply NI_formal'. rewrite Hi. exact Hv.
+      + apply Hc; assumption.
+    - congruence.
+    - rewrite B. exact Ho.
+  Qed.
+
+  Theorem inline_pass_c_good fuel m fv fg : WF m -> NoOpFunc m -> Good m (inline_pass_c fuel m fv fg).
+  Proof.
+    intros HW HN. unfold inline_pass_c.
+    assert (G1 : GoodS m (inline_graph_c fuel GMain (m, fv, fg, []))).
+    { apply (inline_graph_good m fuel GMain _). unfold GoodS. simpl. apply Good_refl; assumption. }
+    destruct (dead_rest_okb fuel _ _) eqn:E.
+    - eapply dead_rest_good; [exact G1 | exact E].
+    - apply delete_good. apply (inline_funcs_good m fuel _ _). exact G1.
   Qed.
 End InlineAll.
